@@ -750,3 +750,185 @@ Theorem C20_no_mutable_package_state :
   StateInventory.rg_mutated g = false /\ StateInventory.rg_escapes g = false.
 Proof. apply StateInventory.pkg_state_ok_spec. vm_compute. reflexivity. Qed.
 Print Assumptions C20_no_mutable_package_state.
+
+(** * Clause 1 for the LAST input: the seller's ordinal input of AcceptBidToBuy1SatOrdinal(2Dummies)
+    (proofs/OrdSellerSign.v; DESIGN 12.8 listed it as open, [fill_input_final] being the lemma).
+
+    The accept-bid flows end with one FillInput on the ordinal input (index 1, resp. 2; SigHashFlags 0 = ALL|FORKID;
+    the seller's unlocker) and return.  For ANY partially signed bid [P] the flow accepts - not only bids made by
+    MakeBidToBuy1SatOrdinal - the seller's input of the RETURNED transaction [A] carries what unlocker.Simple around
+    the seller's key returns when run on [A] itself, and records the ordinal UTXO handed to the flow as its
+    previous output *)
+From GoBT Require proofs.OrdSellerSign proofs.InscribeAccept.
+Section SellerOfAcceptedBid.
+Import Sign SignProofs OrdSignProofs.
+
+Theorem C20_seller_input_signs_accepted_bid_tx : forall key ou bid eq P ss A,
+  accept_bid (simple_signer key) ou bid eq P ss = Done A -> wf_tx P -> bid < two64 ->
+  exists seller_in, nth_error (tx_ins A) 1 = Some seller_in /\
+    unlocking_script (key 1) A 1 0 = SgOk (in_unlock seller_in) /\
+    in_script seller_in = Some (u_script ou) /\ in_sats seller_in = u_sats ou.
+Proof. exact OrdSellerSign.accept_bid_seller_input_signs_final_tx. Qed.
+Print Assumptions C20_seller_input_signs_accepted_bid_tx.
+Theorem C20_seller_input_signs_accepted_bid_tx_2d : forall key prevs bid eq P ss A,
+  accept_bid_2d (simple_signer key) prevs bid eq P ss = Done A -> wf_tx P -> bid < two64 ->
+  exists seller_in ou, nth_error prevs 2 = Some ou /\ nth_error (tx_ins A) 2 = Some seller_in /\
+    unlocking_script (key 2) A 2 0 = SgOk (in_unlock seller_in) /\
+    in_script seller_in = Some (u_script ou) /\ in_sats seller_in = u_sats ou.
+Proof. exact OrdSellerSign.accept_bid_2d_seller_input_signs_final_tx. Qed.
+Print Assumptions C20_seller_input_signs_accepted_bid_tx_2d.
+
+(** with a go-bk-shaped key: push(sig ++ [0x41]) push(key), [sig] the key's signature over
+    CalcInputSignatureHash(A, k, ALL|FORKID) - the digest of the FINAL transaction *)
+Theorem C20_seller_input_signed_over_accepted_bid_digest : forall key ou bid eq P ss A,
+  accept_bid (simple_signer key) ou bid eq P ss = Done A -> wf_tx P -> bid < two64 -> signer_ok (key 1) ->
+  exists seller_in sig h, nth_error (tx_ins A) 1 = Some seller_in /\
+    fst (calc_input_signature_hash A 1 65) = SOk h /\ sg_sign (key 1) h = Some sig /\
+    in_unlock seller_in = P2PKHProofs.p2pkh_unlock sig 65 (sg_pub (key 1)) /\
+    carried_signature (in_unlock seller_in) = Some sig /\ carried_hash_type (in_unlock seller_in) = Some 65.
+Proof. exact OrdSellerSign.accept_bid_seller_input_signed_over_final_digest. Qed.
+Print Assumptions C20_seller_input_signed_over_accepted_bid_digest.
+Theorem C20_seller_input_signed_over_accepted_bid_digest_2d : forall key prevs bid eq P ss A,
+  accept_bid_2d (simple_signer key) prevs bid eq P ss = Done A -> wf_tx P -> bid < two64 -> signer_ok (key 2) ->
+  exists seller_in sig h, nth_error (tx_ins A) 2 = Some seller_in /\
+    fst (calc_input_signature_hash A 2 65) = SOk h /\ sg_sign (key 2) h = Some sig /\
+    in_unlock seller_in = P2PKHProofs.p2pkh_unlock sig 65 (sg_pub (key 2)) /\
+    carried_signature (in_unlock seller_in) = Some sig /\ carried_hash_type (in_unlock seller_in) = Some 65.
+Proof. exact OrdSellerSign.accept_bid_2d_seller_input_signed_over_final_digest. Qed.
+Print Assumptions C20_seller_input_signed_over_accepted_bid_digest_2d.
+
+(** EVERY input of an accepted bid is the answer of its owner's unlocker on the returned transaction: the bidder's
+    (SINGLE|FORKID, made on the bid, surviving the acceptance) and the seller's (ALL|FORKID) *)
+Theorem C20_accepted_bid_every_input_signs_final_tx : forall kb ks bid otx ov us buyer dummy chg q dprev dpay P ou eq ss A,
+  make_bid (simple_signer kb) bid otx ov us buyer dummy chg q dprev dpay = Done P ->
+  accept_bid (simple_signer ks) ou bid eq P ss = Done A -> wf_tx P -> bid < two64 ->
+  N.of_nat (length (tx_outs P)) < two31 -> N.of_nat (length (tx_ins P)) < two32 ->
+  forall j inp, nth_error (tx_ins A) j = Some inp ->
+    unlocking_script (if Nat.eqb j 1 then ks 1 else kb (N.of_nat j)) A (N.of_nat j) (if Nat.eqb j 1 then 0 else 67) =
+    SgOk (in_unlock inp).
+Proof. exact OrdSellerSign.bid_every_input_signs_final_tx. Qed.
+Print Assumptions C20_accepted_bid_every_input_signs_final_tx.
+Theorem C20_accepted_bid_every_input_signs_final_tx_2d : forall kb ks bid otx ov us buyer dummy chg q dprev dpay P prevs eq ss A,
+  make_bid_2d (simple_signer kb) bid otx ov us buyer dummy chg q dprev dpay = Done P ->
+  accept_bid_2d (simple_signer ks) prevs bid eq P ss = Done A -> wf_tx P -> bid < two64 ->
+  N.of_nat (length (tx_outs P)) < two31 -> N.of_nat (length (tx_ins P)) < two32 ->
+  forall j inp, nth_error (tx_ins A) j = Some inp ->
+    unlocking_script (if Nat.eqb j 2 then ks 2 else kb (N.of_nat j)) A (N.of_nat j) (if Nat.eqb j 2 then 0 else 67) =
+    SgOk (in_unlock inp).
+Proof. exact OrdSellerSign.bid_2d_every_input_signs_final_tx. Qed.
+Print Assumptions C20_accepted_bid_every_input_signs_final_tx_2d.
+End SellerOfAcceptedBid.
+
+(** ... and the interpreter model run on the returned transaction accepts it (C04_self_signed_input_accepted_forkid),
+    relative to the ECDSA oracle.  Residual hypotheses as in [C20_listing_buyer_input_accepted]: the ordinal UTXO pays
+    to the seller's key (P2PKH, or P2PKH + inscription envelope), the key is go-bk-shaped, FORKID in force, flag
+    sanity, size, push-only envelope body, the oracle hypothesis for the digest of [A] *)
+Section SellerOfAcceptedBidAccepted.
+Import Ripemd160 ScriptNum Interp CheckSig P2PKHProofs.
+Local Open Scope Z_scope.
+
+Theorem C20_accepted_bid_seller_input_accepted : forall (orc : sig_oracle) key ou bid eq P ss (A : tx)
+    (flags : N) (body : bytes) (insc : bool) (bops : list pop),
+  let s := key 1%N in
+  let pk := Sign.sg_pub s in
+  let lock := (p2pkh_lock (hash160 pk) ++ (if insc then inscription_suffix body else []))%list in
+  accept_bid (OrdSignProofs.simple_signer key) ou bid eq P ss = Done A -> wf_tx P -> (bid < two64)%N ->
+  wf_tx A -> u_script ou = lock -> SignProofs.signer_ok s ->
+  exists seller_in, nth_error (tx_ins A) 1 = Some seller_in /\ in_script seller_in = Some lock /\
+    in_sats seller_in = u_sats ou /\
+    let c := mkCtx (normalise_flags flags) true (Z.of_N (tx_lock A)) (Z.of_N (tx_version A)) (Z.of_N (in_seq seller_in)) false in
+    (has_flag c F_FORKID = true ->
+     (has_flag c F_CLEANSTACK = true -> has_flag c F_BIP16 = true) ->
+     lenZ lock <= max_script_size c ->
+     (insc = true -> parse_ops (length body) false body 1 = Some bops /\ is_push_only bops = true /\
+                     Forall (fun p => lenZ (p_data p) <= max_elem c) bops) ->
+     (forall h, fst (calc_input_signature_hash A 1 65) = SOk h -> SignProofs.oracle_accepts_signer orc c s h) ->
+     fst (engine_execute (mk_sigops orc (engine_tx A 1 (in_unlock seller_in) lock (in_sats seller_in)) 1)
+            (mkExecInput (in_unlock seller_in) lock flags true true (Z.of_N (tx_lock A)) (Z.of_N (tx_version A))
+                         (Z.of_N (in_seq seller_in)))) = VOk).
+Proof. exact OrdSellerSign.accept_bid_seller_input_accepted. Qed.
+Print Assumptions C20_accepted_bid_seller_input_accepted.
+
+Theorem C20_accepted_bid_seller_input_accepted_2d : forall (orc : sig_oracle) key prevs bid eq P ss (A : tx)
+    (flags : N) (body : bytes) (insc : bool) (bops : list pop),
+  let s := key 2%N in
+  let pk := Sign.sg_pub s in
+  let lock := (p2pkh_lock (hash160 pk) ++ (if insc then inscription_suffix body else []))%list in
+  accept_bid_2d (OrdSignProofs.simple_signer key) prevs bid eq P ss = Done A -> wf_tx P -> (bid < two64)%N ->
+  wf_tx A -> (forall ou, nth_error prevs 2 = Some ou -> u_script ou = lock) -> SignProofs.signer_ok s ->
+  exists seller_in ou, nth_error prevs 2 = Some ou /\ nth_error (tx_ins A) 2 = Some seller_in /\
+    in_script seller_in = Some lock /\ in_sats seller_in = u_sats ou /\
+    let c := mkCtx (normalise_flags flags) true (Z.of_N (tx_lock A)) (Z.of_N (tx_version A)) (Z.of_N (in_seq seller_in)) false in
+    (has_flag c F_FORKID = true ->
+     (has_flag c F_CLEANSTACK = true -> has_flag c F_BIP16 = true) ->
+     lenZ lock <= max_script_size c ->
+     (insc = true -> parse_ops (length body) false body 1 = Some bops /\ is_push_only bops = true /\
+                     Forall (fun p => lenZ (p_data p) <= max_elem c) bops) ->
+     (forall h, fst (calc_input_signature_hash A 2 65) = SOk h -> SignProofs.oracle_accepts_signer orc c s h) ->
+     fst (engine_execute (mk_sigops orc (engine_tx A 2 (in_unlock seller_in) lock (in_sats seller_in)) 2)
+            (mkExecInput (in_unlock seller_in) lock flags true true (Z.of_N (tx_lock A)) (Z.of_N (tx_version A))
+                         (Z.of_N (in_seq seller_in)))) = VOk).
+Proof. exact OrdSellerSign.accept_bid_2d_seller_input_accepted. Qed.
+Print Assumptions C20_accepted_bid_seller_input_accepted_2d.
+
+(** the ordinal as Tx.Inscribe made it for the seller's key - envelope, with or without OP_RETURN data: after
+    Genesis nothing is assumed about content type, payload or OP_RETURN items (C04_self_signed_inscribed_input_accepted) *)
+Theorem C20_accepted_bid_seller_inscribed_input_accepted : forall (orc : sig_oracle) key ou bid eq P ss (A : tx)
+    (flags : N) (ct data : bytes) (enriched : option (list bytes)),
+  let s := key 1%N in
+  let pk := Sign.sg_pub s in
+  accept_bid (OrdSignProofs.simple_signer key) ou bid eq P ss = Done A -> wf_tx P -> (bid < two64)%N ->
+  wf_tx A -> Inscription.inscribe_script (p2pkh_lock (hash160 pk)) ct data enriched = Some (u_script ou) ->
+  SignProofs.signer_ok s ->
+  exists seller_in, nth_error (tx_ins A) 1 = Some seller_in /\ in_script seller_in = Some (u_script ou) /\
+    in_sats seller_in = u_sats ou /\
+    let c := mkCtx (normalise_flags flags) true (Z.of_N (tx_lock A)) (Z.of_N (tx_version A)) (Z.of_N (in_seq seller_in)) false in
+    (has_flag c F_FORKID = true -> after_genesis c = true ->
+     (has_flag c F_CLEANSTACK = true -> has_flag c F_BIP16 = true) ->
+     lenZ (u_script ou) <= max_script_size c ->
+     (forall h, fst (calc_input_signature_hash A 1 65) = SOk h -> SignProofs.oracle_accepts_signer orc c s h) ->
+     fst (engine_execute (mk_sigops orc (engine_tx A 1 (in_unlock seller_in) (u_script ou) (in_sats seller_in)) 1)
+            (mkExecInput (in_unlock seller_in) (u_script ou) flags true true (Z.of_N (tx_lock A)) (Z.of_N (tx_version A))
+                         (Z.of_N (in_seq seller_in)))) = VOk).
+Proof. exact OrdSellerSign.accept_bid_seller_inscribed_input_accepted. Qed.
+Print Assumptions C20_accepted_bid_seller_inscribed_input_accepted.
+Theorem C20_accepted_bid_seller_inscribed_input_accepted_2d : forall (orc : sig_oracle) key prevs bid eq P ss (A : tx)
+    (flags : N) (ct data : bytes) (enriched : option (list bytes)),
+  let s := key 2%N in
+  let pk := Sign.sg_pub s in
+  accept_bid_2d (OrdSignProofs.simple_signer key) prevs bid eq P ss = Done A -> wf_tx P -> (bid < two64)%N ->
+  wf_tx A ->
+  (forall ou, nth_error prevs 2 = Some ou ->
+     Inscription.inscribe_script (p2pkh_lock (hash160 pk)) ct data enriched = Some (u_script ou)) ->
+  SignProofs.signer_ok s ->
+  exists seller_in ou, nth_error prevs 2 = Some ou /\ nth_error (tx_ins A) 2 = Some seller_in /\
+    in_script seller_in = Some (u_script ou) /\ in_sats seller_in = u_sats ou /\
+    let c := mkCtx (normalise_flags flags) true (Z.of_N (tx_lock A)) (Z.of_N (tx_version A)) (Z.of_N (in_seq seller_in)) false in
+    (has_flag c F_FORKID = true -> after_genesis c = true ->
+     (has_flag c F_CLEANSTACK = true -> has_flag c F_BIP16 = true) ->
+     lenZ (u_script ou) <= max_script_size c ->
+     (forall h, fst (calc_input_signature_hash A 2 65) = SOk h -> SignProofs.oracle_accepts_signer orc c s h) ->
+     fst (engine_execute (mk_sigops orc (engine_tx A 2 (in_unlock seller_in) (u_script ou) (in_sats seller_in)) 2)
+            (mkExecInput (in_unlock seller_in) (u_script ou) flags true true (Z.of_N (tx_lock A)) (Z.of_N (tx_version A))
+                         (Z.of_N (in_seq seller_in)))) = VOk).
+Proof. exact OrdSellerSign.accept_bid_2d_seller_inscribed_input_accepted. Qed.
+Print Assumptions C20_accepted_bid_seller_inscribed_input_accepted_2d.
+
+(** non-vacuity: MakeBid then AcceptBid with unlocker.Simple around a fixed key, the ordinal UTXO paying to that key:
+    both flows return, the transactions are well formed, the seller's input (1) of the result carries the unlocker's
+    answer on the result, records the ordinal UTXO's script, and the interpreter model accepts it *)
+Example C20_accepted_bid_seller_example :
+  exists P A si,
+    make_bid (OrdSignProofs.simple_signer OrdSellerSign.ex_key) 1000 (repeat_byte 32 xaa) 0 OrdSellerSign.ex_funding
+      (OrdSellerSign.ex_p2pkh x04) (OrdSellerSign.ex_p2pkh x05) (OrdSellerSign.ex_p2pkh x06)
+      OrdSellerSign.ex_quote (OrdSellerSign.ex_p2pkh x07) (OrdSellerSign.ex_p2pkh x08) = Done P /\
+    accept_bid (OrdSignProofs.simple_signer OrdSellerSign.ex_key) OrdSellerSign.ex_ord_utxo 1000 OrdSellerSign.ex_quote P
+      (OrdSellerSign.ex_p2pkh x03) = Done A /\
+    wf_tx P /\ wf_tx A /\ nth_error (tx_ins A) 1 = Some si /\
+    Sign.unlocking_script SignProofs.ex_signer A 1 0 = Sign.SgOk (in_unlock si) /\
+    in_script si = Some (p2pkh_lock (hash160 ex_pk)) /\
+    fst (engine_execute (mk_sigops ex_orc (engine_tx A 1 (in_unlock si) (p2pkh_lock (hash160 ex_pk)) (in_sats si)) 1)
+           (mkExecInput (in_unlock si) (p2pkh_lock (hash160 ex_pk)) FLAGS_FORKID_GENESIS true true
+                        (Z.of_N (tx_lock A)) (Z.of_N (tx_version A)) (Z.of_N (in_seq si)))) = VOk.
+Proof. exact OrdSellerSign.accept_bid_seller_example. Qed.
+End SellerOfAcceptedBidAccepted.
